@@ -24,6 +24,10 @@ EXTENDS Naturals, Sequences, FiniteSets, TLC, Json, WorldTable
 
 CONSTANTS Programs      \* the abstract programs to explore (records, see MCMatching)
 
+\* The struct table of the world, without blank members: a member called _ can be neither read nor
+\* assigned, so for the walk below it does not exist (model/util.go IterateStructFields).
+WS == [t \in DOMAIN WStructs |-> [WStructs[t] EXCEPT !.fs = SelectSeq(@, LAMBDA f : f.n # "_")]]
+
 (* program: [dst, src : root struct ids; args : seq of type ids (additional arguments);
              retErr : BOOLEAN; o : [case, getter, stringer, typecast : BOOLEAN, rule : "name"|"none"];
              notes : seq of notations]
@@ -39,7 +43,7 @@ vars == <<prog, pc, todo, plan, warns, reject>>
 (* helpers over the world tables *)
 IsPtr(t)    == WKind[t] = "ptr"
 Deref(t)    == IF IsPtr(t) THEN WPtrElem[t] ELSE t
-IsStructId(t) == t \in DOMAIN WStructs
+IsStructId(t) == t \in DOMAIN WS
 ByValueStruct(t) == IsStructId(t)
 Asg(a, b)   == <<a, b>> \in WAssignable
 Cnv(a, b)   == <<a, b>> \in WConvertibleOnly
@@ -80,8 +84,8 @@ ExplicitAt(p) == {i \in NoteIdx : Notes[i].k \in {"map", "conv", "lit"} /\ Notes
 RECURSIVE PathsBelow(_, _, _)
 PathsBelow(p, t, depth) ==
   IF ~IsStructId(t) \/ depth = 0 THEN {}
-  ELSE UNION {{Append(p, WStructs[t].fs[i].n)} \cup PathsBelow(Append(p, WStructs[t].fs[i].n), WStructs[t].fs[i].t, depth - 1)
-              : i \in {j \in DOMAIN WStructs[t].fs : ~WStructs[t].ext \/ WStructs[t].fs[j].ex}}
+  ELSE UNION {{Append(p, WS[t].fs[i].n)} \cup PathsBelow(Append(p, WS[t].fs[i].n), WS[t].fs[i].t, depth - 1)
+              : i \in {j \in DOMAIN WS[t].fs : ~WS[t].ext \/ WS[t].fs[j].ex}}
 \* does some notation address an existing path strictly below p?
 AddressedBelow(p, t) ==
   \E q \in PathsBelow(p, t, 3) : ShouldSkip(q) \/ ExplicitAt(q) # {}
@@ -91,8 +95,8 @@ RECURSIVE TypeAtFrom(_, _, _)
 TypeAtFrom(t, p, i) ==
   IF i > Len(p) THEN t
   ELSE IF ~IsStructId(t) THEN "NONE"
-  ELSE LET fs == {j \in DOMAIN WStructs[t].fs : WStructs[t].fs[j].n = p[i]} IN
-       IF fs = {} THEN "NONE" ELSE TypeAtFrom(WStructs[t].fs[CHOOSE j \in fs : TRUE].t, p, i + 1)
+  ELSE LET fs == {j \in DOMAIN WS[t].fs : WS[t].fs[j].n = p[i]} IN
+       IF fs = {} THEN "NONE" ELSE TypeAtFrom(WS[t].fs[CHOOSE j \in fs : TRUE].t, p, i + 1)
 TypeAt(t, p) == TypeAtFrom(t, p, 1)
 
 ----------------------------------------------------------------------------
@@ -101,7 +105,8 @@ Cast(dt, st, term) ==
   IF Asg(st, dt) THEN {Out("assign", term, "", "")}
   ELSE LET str == IF O.stringer /\ Asg("string", dt) /\ st \in WHasStringV
                     THEN {Out("str", term \o ".String()", "", "")} ELSE {}
-           cst == IF O.typecast /\ Cnv(st, dt) /\ Renderable(dt)
+           \* a conversion spells out the target type: the generated package must be able to name it
+           cst == IF O.typecast /\ Cnv(st, dt) /\ Renderable(dt) /\ dt \in WNameable
                     THEN {Out("cast", "cast[" \o dt \o "](" \o term \o ")", "", "")} ELSE {}
        IN str \cup cst       \* both applicable: either is permitted
 
@@ -110,19 +115,19 @@ Cast(dt, st, term) ==
    calls of methods with no parameter and one result or (T, error) - the latter only as last step;
    every step accessible from the generated package; names compared exactly. *)
 FieldIn(t, name) ==
-  LET s == WStructs[t]
+  LET s == WS[t]
       direct == {i \in DOMAIN s.fs : s.fs[i].n = name} IN
   IF direct # {} THEN LET i == CHOOSE i \in direct : TRUE IN
                         [ok |-> ~s.ext \/ s.fs[i].ex, t |-> s.fs[i].t]
   ELSE LET embs == {i \in DOMAIN s.fs : s.fs[i].emb /\ IsStructId(Deref(s.fs[i].t))
-                                         /\ \E j \in DOMAIN WStructs[Deref(s.fs[i].t)].fs : WStructs[Deref(s.fs[i].t)].fs[j].n = name} IN
+                                         /\ \E j \in DOMAIN WS[Deref(s.fs[i].t)].fs : WS[Deref(s.fs[i].t)].fs[j].n = name} IN
        IF embs = {} THEN [ok |-> FALSE, t |-> "NONE"]
        ELSE LET i == CHOOSE i \in embs : TRUE
                 et == Deref(s.fs[i].t)
-                j == CHOOSE j \in DOMAIN WStructs[et].fs : WStructs[et].fs[j].n = name IN
-            [ok |-> (~WStructs[et].ext \/ WStructs[et].fs[j].ex), t |-> WStructs[et].fs[j].t]
+                j == CHOOSE j \in DOMAIN WS[et].fs : WS[et].fs[j].n = name IN
+            [ok |-> (~WS[et].ext \/ WS[et].fs[j].ex), t |-> WS[et].fs[j].t]
 MethodIn(t, name) ==
-  LET s == WStructs[t]
+  LET s == WS[t]
       ms == {i \in DOMAIN s.ms : s.ms[i].n = name} IN
   IF ms = {} THEN [ok |-> FALSE, t |-> "NONE", err |-> FALSE]
   ELSE LET i == CHOOSE i \in ms : TRUE IN
@@ -187,21 +192,23 @@ ExplicitOutcome(i, dt) ==
 (* default matching of one destination member inside the current source struct *)
 SrcGetters(st, leaf) ==
   IF ~O.getter \/ O.rule # "name" \/ ~IsStructId(Deref(st)) THEN << >>
-  ELSE SelectSeq(WStructs[Deref(st)].ms, LAMBDA m : m.getter /\ (~WStructs[Deref(st)].ext \/ m.ex) /\ NameEq(leaf, m.n, O.case))
+  ELSE SelectSeq(WS[Deref(st)].ms, LAMBDA m : m.getter /\ (~WS[Deref(st)].ext \/ m.ex) /\ NameEq(leaf, m.n, O.case))
 SrcFields(st, leaf) ==
   IF O.rule # "name" \/ ~IsStructId(Deref(st)) THEN << >>
-  ELSE SelectSeq(WStructs[Deref(st)].fs, LAMBDA f : (~WStructs[Deref(st)].ext \/ f.ex) /\ NameEq(leaf, f.n, O.case))
+  ELSE SelectSeq(WS[Deref(st)].fs, LAMBDA f : (~WS[Deref(st)].ext \/ f.ex) /\ NameEq(leaf, f.n, O.case))
 
+\* a slice is copied into fresh storage (C16), which spells out its type; a slice whose type the generated
+\* package cannot name is not matched at all - assigned as a whole it would share its elements with the source
 SliceRule(dt, st, term) ==
-  IF dt \in WSlices /\ st \in WSlices /\ dt = st THEN {Out("slice", term, "copy", ""), Out("slice", term, "loop", "")} ELSE {}
+  IF dt = st /\ dt \in WNameable THEN {Out("slice", term, "copy", ""), Out("slice", term, "loop", "")} ELSE {}
 
 \* outcome of ONE candidate: whole-value outcomes, and whether member-wise descent applies
-Whole(dt, ct, term) == LET s == SliceRule(dt, ct, term) IN IF s # {} THEN s ELSE Cast(dt, ct, term)
+Whole(dt, ct, term) == IF dt \in WSlices /\ ct \in WSlices THEN SliceRule(dt, ct, term) ELSE Cast(dt, ct, term)
 CanNest(dt, ct) == ByValueStruct(dt) /\ ByValueStruct(ct)
 
 Frame(path, dt, srcTerm, srcT) == [path |-> path, dt |-> dt, srcTerm |-> srcTerm, srcT |-> srcT]
 Children(f, ct, cterm) ==
-  LET s == WStructs[f.dt]
+  LET s == WS[f.dt]
       kids == SelectSeq(s.fs, LAMBDA m : ~s.ext \/ m.ex) IN
   [i \in 1..Len(kids) |-> Frame(Append(f.path, kids[i].n), kids[i].t, cterm, ct)]
 
